@@ -21,10 +21,10 @@ type pstate struct {
 }
 
 type pathResult struct {
-	names []string
-	exits map[*cfg.Block][]pstate // states at the end of each exit block
-	pred  map[pkey]pkey
-	g     *cfg.CFG
+	names   []string
+	exits   map[*cfg.Block][]pstate // states at the end of each exit block
+	pred    map[pkey]pkey
+	g       *cfg.CFG
 	entryOf map[pkey]pstate
 }
 
